@@ -403,18 +403,15 @@ char *_GD_BuildCode(DIRFILE *D, int index, const char *ns, size_t nslen,
   if (frag_nsl)
     newlen++; /* for the '.' */
   
-  if (newlen == len) { /* no change except maybe a removed initial '.' */
+  repr = _GD_SlashDot(code, len, nons ? GD_CO_EARLY : 0, &dot, &slash);
+
+  /* no change except maybe a removed initial '.' -- but a code carrying a
+   * namespace tag goes the long way, which drops the tags of INDEX */
+  if (newlen == len && dot == NULL) {
     newcode = _GD_Strdup(D, code);
 
-    /* If we were passed offset (which only occurs in the parser), we have to do
-     * this, I guess */
-    if (newcode && offset) {
-      repr = _GD_SlashDot(newcode, len, nons ? GD_CO_EARLY : 0, &dot, &slash);
-      if (dot)
-        *offset = dot - newcode + 1; /* Advance past the '.' */
-      else
-        *offset = 0;
-    }
+    if (newcode && offset)
+      *offset = 0;
 
     dreturn("%p", newcode); /* will be NULL on error */
     return newcode;
@@ -439,8 +436,6 @@ char *_GD_BuildCode(DIRFILE *D, int index, const char *ns, size_t nslen,
     ptr[nslen - 1] = '.';
     ptr += nslen;
   }
-
-  repr = _GD_SlashDot(code, len, nons ? GD_CO_EARLY : 0, &dot, &slash);
 
   if (repr) /* forget about the representation suffix */
     len -= 2;
